@@ -64,6 +64,26 @@ CLAIMS = {
    text='Handler-level theorems for all states, symbols and hosts (C17_resolve_found_in_input, C17_resolve_protocol, C17_apply_external_protocol, C17_emptyApply_external, C17_evalF_resolve_calls) and, program level, the PROG oracle: the recorded resolve/apply/defer calls of the real pipeline equal evalF`s trace in order, count and arguments for generated programs with identifiers and applications, plus templates placing an identifier or external at every operand position (operators, lists, pairs, tests and arms, both sides of && and ||, nested bodies, side-effect blocks, after `;`, inside a reapply loop) x hosts {absent, declining, accepting} x inputs that do / do not contain the key; resolve on both stores, external apply on Basic.',
    note='Partial at program level until the compile theorem transfers evalF traces to compiled code for all programs. Trusted: recording host in the harness; evalF trace as specification.',
    ref='DESIGN.md §6 C17'),
+ 'C02': dict(
+   technique='Lean 4: verified reference parser refParse over the language operator table (C02_refParse_precOK for every accepted token list) + bridge theorems regenerated-table = language-table; per-input validation toTree(implementation nodes) = refParse(tokens) through the verified tree conversion',
+   text='"The tree the operator table dictates" is defined by a precedence-climbing reference parser in Lean over the committed language table; C02_refParse_precOK proves, for every token list it accepts (binary, prefix, suffix, implicit space list, comma list, conditionals, apply forms, groups, nested expressions, separators), that its tree satisfies the declarative precedence/associativity predicate PrecOK. C02_bridge_priority/definition/table (re-checked on every run against the tables regenerated from parser.rs) tie the language table to the code. The real parser is tied to it per input: for every ordered pair (quick) / triple (thorough) of operator token types around atoms with and without whitespace and random deeper expressions (61k+ token lists per quick run) the implementation`s own node array, converted by the verified toTree, must equal refParse`s tree; the statement-level parser model agrees with the implementation on the same inputs (PARSE suite).',
+   note='Partial: the real parser is proved correct only through per-input validation (and on a binary-operator fragment when Lemmas/ParserInv is present); uniqueness of the PrecOK tree and in-order of refParse are stated, proved on fragments. Side-effect blocks and `;;` are outside the reference grammar. Equal-priority prefix/binary tie broken by the later operator`s class, as observed.',
+   ref='DESIGN.md §6 C02, §11'),
+ 'C04': dict(
+   technique='Lean 4 verified checker (properTree sound+complete, toTree, in-order order and coverage) run on the implementation`s own node dump for every input that parse and build accept; instruction-metadata attribution check; parse_safe',
+   text='C04_properTree_sound/complete, C04_toTree_some_iff, C04_inorder_visits_all, C04_inorderSorted_iff are theorems about the checker for ALL parse results; the check feeds the real parser`s node array (137k token lists per quick run: exhaustive short token-class sequences, operator pairs/triples, random expressions, soups) to that checker whenever parse AND build accept, and additionally requires every reachable value/operator node to be attributed an emitted instruction in the build metadata. Two fix: commits made build reject improper trees and unscheduled nodes, after which no accepted input violates the property on the corpora.',
+   note='The universal "parse yields a proper tree" is false for the parser alone (cyclic trees exist) and is enforced by build`s validation; it is certified per input. `significant` is a function of the token list validated empirically. Structural nodes (Group, List/CommaList, ElseJump, Subexpression) forward to their children and need no instruction of their own.',
+   ref='DESIGN.md §6 C04, §11'),
+ 'C18': dict(
+   technique='Lean 4 theorems on evalF: adding/removing a side-effect block with a pure body leaves value, input value and trace unchanged (all expressions); grouping is not a node of the semantics; metamorphic RUN+DUMP suite applies every rewrite at every applicable position',
+   text='Semantic half proved for all expressions (C18_pure_side_effect, C18_remove_pure_side_effect, C18_literal_block). Syntactic half certified per program: for every generated program the real lexer`s token list is edited only at whitespace tokens (extra space/tab, doubled spaces, annotation, comment line, spaces before/inside a blank line, leading/trailing whitespace) — at every position for small programs — and the rewritten text must give the identical result, host-call trace and built instruction stream; wrapping complete operands in parentheses and hanging pure side-effect blocks on atoms must give the identical result.',
+   note='Partial by design: no universal parser theorem for whitespace insensitivity (fragment lemmas in Props/C18Lex / C18Parse when present). Known finding: a side-effect block directly after a closed group is spliced inside the group.',
+   ref='DESIGN.md §6 C18, §11'),
+ 'C20': dict(
+   technique='Lean 4 theorems: build only appends and never patches earlier jump entries (build_appends_only on the builder model, all trees and start states); a program`s steps are unchanged in any extension of its object (C20_*_unchanged, extends_of_append); MULTI suite on both stores',
+   text='Builder side: build_appends_only (Lemmas/Build.lean) — for every parse tree, fuel and non-empty initial object, the earlier instructions, constants and metadata are prefixes of the result and every earlier jump entry is unchanged. Machine side: what an instruction does depends only on the pieces it names, which an extension preserves. Tied to the code by BUILD with n_pre in {0,1,2} (model = implementation) and by MULTI: every order of 2..3 (quick) / 4 (thorough) programs built into one object with executions interleaved, each build must leave all earlier instructions / jump entries / constants unchanged and refer only to its own entries, and each program run from its reported entry must compute the value and trace it computes alone.',
+   note='Trusted: builder transliteration tied by BUILD; SimpleGarnishData interning covered by C15 simple_intern.',
+   ref='DESIGN.md §6 C20, §11'),
 }
 checks = []
 na = []
